@@ -172,3 +172,40 @@ func verifH_C11_pingslot() {
 	_ = errB
 	verifReach("end")
 }
+
+// Connection loss racing with requests: the read routine goes offline while a
+// publish is inside its (slow) write and a Subscribe and a Ping are being
+// submitted. Whatever the interleaving, every request returns: broken by
+// toOffline, failed by its own write, or refused once the reconnect failed.
+func verifH_C11_offlinerace() {
+	verifPreempt(verifParam("preempt", 0))
+	c := verifNewClient(&verifStore{}, &Config{})
+	conn := &verifConn{slow: true}
+	verifGoOnline(c, conn)
+	r1, r2, r3, r4 := false, false, false, false
+	var e2, e3 error
+	go func() { c.Publish(nil, []byte{'x'}, "a"); r1 = true }()
+	go func() { e2 = c.Subscribe(nil, "s"); r2 = true }()
+	if verifParam("ping", 0) == 1 {
+		go func() { e3 = c.Ping(nil); r3 = true }()
+	} else {
+		e3, r3 = ErrDown, true
+	}
+	go func() { c.toOffline(); r4 = true }()
+	verifQuiesce()
+	verifAssert(r4, "C10: toOffline does not return")
+	// the reconnect attempt fails: requests that waited for it are refused
+	tok := <-c.writeSem
+	if tok == connPending {
+		c.writeSem <- connDown
+	} else {
+		c.writeSem <- tok
+	}
+	verifQuiesce()
+	verifAssert(r1, "C11: Publish waits forever across a connection loss")
+	verifAssert(r2, "C11: Subscribe waits forever: it was submitted on the lost connection and nobody released it")
+	verifAssert(r3, "C11: Ping waits forever: it was submitted on the lost connection and nobody released it")
+	verifAssert(e2 != nil && e3 != nil, "C11: request reports success without a response")
+	verifAssert(len(c.unorderedTxs.perPacketID) == 0, "C11: a slot is left registered after its request returned")
+	verifReach("end")
+}
